@@ -1535,3 +1535,139 @@ pub fn is_valid(c: &Case) -> bool {
 pub fn value_of(c: &Case) -> Dec {
     Dec::from_input(&c.int, &c.frac, c.exp as i64)
 }
+
+// ---------------------------------------------------------------------------
+// Exhaustive search for the *second-product* variant of Lemire's `lo == u64::MAX` condition (f64):
+// the low 9 bits of the first product's high word are all ones (so the second 64x64 product is
+// computed) and the corrected low word is u64::MAX, i.e. bits [64, 137) of the 192-bit product
+// w * T128 are all ones:  (w * T128) mod 2^137 in [2^137 - 2^64, 2^137).  Solved exactly with the
+// Euclid-like algorithm for "smallest x with l <= a*x mod m <= r".
+
+/// Smallest x >= 0 with l <= (a * x mod m) <= r, for 0 <= l <= r < m.
+fn min_mod_in_range(a: &Nat, m: &Nat, l: &Nat, r: &Nat, depth: u32) -> Option<Nat> {
+    use std::cmp::Ordering::*;
+    if l.is_zero() {
+        return Some(Nat::zero());
+    }
+    let (_, a) = a.divrem(m);
+    if a.is_zero() || depth > 400 {
+        return None;
+    }
+    if a.shl(1).cmp(m) == Greater {
+        // a*x mod m in [l, r]  <=>  (m-a)*x mod m in [m-r, m-l]
+        return min_mod_in_range(&m.sub(&a), m, &m.sub(r), &m.sub(l), depth + 1);
+    }
+    // first multiple of a at or above l
+    let (q, rem) = l.divrem(&a);
+    let x = if rem.is_zero() { q } else { q.add_small(1) };
+    if a.mul(&x).cmp(r) != Greater {
+        return Some(x);
+    }
+    // no multiple of a inside [l, r]: find the smallest y (number of wraps) such that a multiple of a
+    // falls into [l + m*y, r + m*y]:  ((-m mod a) * y) mod a in [l mod a, r mod a]
+    let (_, m_mod_a) = m.divrem(&a);
+    let mp = if m_mod_a.is_zero() { Nat::zero() } else { a.sub(&m_mod_a) };
+    let (_, lm) = l.divrem(&a);
+    let (_, rm) = r.divrem(&a);
+    if lm.cmp(&rm) == Greater {
+        return None; // cannot happen when no multiple of a lies in [l, r]
+    }
+    let y = min_mod_in_range(&mp, &a, &lm, &rm, depth + 1)?;
+    let num = l.add(&m.mul(&y));
+    let (q, rem) = num.divrem(&a);
+    Some(if rem.is_zero() { q } else { q.add_small(1) })
+}
+
+/// Brute-force validation of `min_mod_in_range` on small moduli (part of the report, not of any check).
+pub fn validate_min_mod_in_range() -> Result<u64, String> {
+    let mut n = 0;
+    let mut s = 12345u64;
+    for _ in 0..20000 {
+        s = mix(s);
+        let m = 2 + s % 500;
+        let a = (s >> 16) % m;
+        let l = (s >> 32) % m;
+        let r = l + (s >> 48) % (m - l);
+        let want = (0..m).find(|x| {
+            let v = a * x % m;
+            l <= v && v <= r
+        });
+        let got = min_mod_in_range(&Nat::from_u64(a), &Nat::from_u64(m), &Nat::from_u64(l), &Nat::from_u64(r), 0).and_then(|x| x.to_u64());
+        if got != want {
+            return Err(format!("a={a} m={m} l={l} r={r}: got {:?} want {:?}", got, want));
+        }
+        n += 1;
+    }
+    Ok(n)
+}
+
+/// All w in [2^63, 2^64) with (w * t128) mod 2^137 >= 2^137 - 2^64.
+pub fn second_product_lo_max(t128: &Nat) -> Vec<u64> {
+    second_product_window(t128, 64, 64)
+}
+
+/// Generalisation used to validate the search: (w * t128) mod 2^137 >= 2^137 - 2^width, at most `max` hits.
+pub fn second_product_window(t128: &Nat, width: u64, max: usize) -> Vec<u64> {
+    second_product_window_mod(t128, 137, width, max)
+}
+
+/// `mod_bits` = 128 + (64 - precision): 137 for f64 (precision 55), 166 for f32 (precision 26).
+pub fn second_product_window_mod(t128: &Nat, mod_bits: u64, width: u64, max: usize) -> Vec<u64> {
+    use std::cmp::Ordering::*;
+    let m = Nat::pow2(mod_bits);
+    let lo = m.sub(&Nat::pow2(width));
+    let hi = m.sub(&Nat::one());
+    let mut out = Vec::new();
+    let mut w0 = Nat::pow2(63);
+    let end = Nat::pow2(64);
+    for _ in 0..max {
+        // offset: t*(w0 + x) mod m in [lo, hi]  <=>  t*x mod m in [lo - c, hi - c] (mod m), c = t*w0 mod m
+        let (_, c) = t128.mul(&w0).divrem(&m);
+        let sub_mod = |v: &Nat| -> Nat {
+            if v.cmp(&c) != Less {
+                v.sub(&c)
+            } else {
+                v.add(&m).sub(&c)
+            }
+        };
+        let (l, r) = (sub_mod(&lo), sub_mod(&hi));
+        let x = if l.cmp(&r) == Greater {
+            Some(Nat::zero()) // the interval wraps through 0: x = 0 is already inside
+        } else {
+            min_mod_in_range(t128, &m, &l, &r, 0)
+        };
+        match x {
+            None => break,
+            Some(x) => {
+                let w = w0.add(&x);
+                if w.cmp(&end) != Less {
+                    break;
+                }
+                out.push(w.to_u64().unwrap());
+                w0 = w.add_small(1);
+            }
+        }
+    }
+    out
+}
+
+/// (w, q) pairs of the second-product variant over the whole table (f64 precision mask).
+pub fn lemire_second_product_pairs() -> &'static Vec<(u64, i32)> {
+    use std::sync::OnceLock;
+    static T: OnceLock<Vec<(u64, i32)>> = OnceLock::new();
+    T.get_or_init(|| {
+        let mut out = Vec::new();
+        for q in -342..=308i32 {
+            let (hi, lo) = crate::props::c14::lemire_entry(q);
+            let t = Nat::from_u128(((hi as u128) << 64) | lo as u128);
+            for w in second_product_lo_max(&t) {
+                out.push((w, q));
+            }
+            // f32's precision mask is 38 bits wide: bits [64, 166) all ones
+            for w in second_product_window_mod(&t, 166, 64, 64) {
+                out.push((w, q));
+            }
+        }
+        out
+    })
+}
